@@ -100,7 +100,22 @@ impl Context
                 use std::path;
 
                 let next_reference_id =
-                    Context::read_cached_next_reference_id(&loaded_config, config_dir);
+                    match Context::read_cached_next_reference_id(&loaded_config, config_dir)
+                    {
+                        Ok(id) => id,
+                        Err(e) =>
+                        {
+                            if !check_mode
+                            {
+                                /* New IDs are about to be handed out: carrying on without the
+                                 * lock file's value could hand out IDs it was protecting.
+                                 */
+                                return Err(e);
+                            }
+
+                            None
+                        },
+                    };
 
                 let mut loaded_context = Self {
                     config: loaded_config,
@@ -149,21 +164,25 @@ impl Context
     ///
     /// # Returns
     ///
-    /// The cached next reference ID, if one exists.
-    fn read_cached_next_reference_id(config: &Config, directory_path: &str) -> Option<u32>
+    /// The cached next reference ID, if one exists and can be parsed; an error message if the
+    /// lock file exists but cannot be read.
+    fn read_cached_next_reference_id(
+        config: &Config,
+        directory_path: &str,
+    ) -> Result<Option<u32>, String>
     {
         let cache_path = std::path::Path::new(directory_path).join(Context::CACHE_FILENAME);
 
         if !config.use_cache || !cache_path.exists()
         {
-            return None;
+            return Ok(None);
         }
 
-        if let Ok(cache_yaml) = std::fs::read_to_string(cache_path)
+        match std::fs::read_to_string(cache_path)
         {
-            match serde_yaml::from_str::<Cache>(cache_yaml.as_str())
+            Ok(cache_yaml) => match serde_yaml::from_str::<Cache>(cache_yaml.as_str())
             {
-                Ok(loaded_cache) => Some(loaded_cache.next_reference_id),
+                Ok(loaded_cache) => Ok(Some(loaded_cache.next_reference_id)),
                 Err(e) =>
                 {
                     log::warn!(
@@ -171,17 +190,21 @@ impl Context
                         Context::CACHE_FILENAME,
                         e
                     );
-                    None
+                    Ok(None)
                 },
-            }
-        }
-        else
-        {
-            log::warn!(
-                "[ref: 32] Failed to read lock file {}",
-                Context::CACHE_FILENAME
-            );
-            None
+            },
+            Err(e) =>
+            {
+                log::warn!(
+                    "[ref: 32] Failed to read lock file {}",
+                    Context::CACHE_FILENAME
+                );
+                Err(format!(
+                    "Failed to read lock file {}: {}",
+                    Context::CACHE_FILENAME,
+                    e
+                ))
+            },
         }
     }
 
